@@ -58,6 +58,20 @@ def run(c):
     jobs += [(concretise(s), g) for s in (["add", "add", "add"], ["add", "sleep", "add", "add"], ["add", "panic", "add"]) for g in (TIMEOUT_MS * 3 // 4, TIMEOUT_MS * 5 // 4, TIMEOUT_MS * 2)]
     with ThreadPoolExecutor(max_workers=16) as ex:
         results = list(ex.map(run_seq, jobs))
+    # a reply that differs from the request's own outcome is re-checked with the machine to itself: the
+    # sequence runs alone, twice more; a scheduling hiccup under load (a normal request overrunning the
+    # time limit) does not repeat, a fault of the sandbox does
+    want_of = lambda ops: [own(o) for o in ops]
+    retried = 0
+    for i, (ops, gap, reps, raw) in enumerate(results):
+        if reps != want_of(ops):
+            retried += 1
+            for _ in range(2):
+                again = run_seq((ops, gap))
+                if again[2] == want_of(ops):
+                    results[i] = again
+                    break
+    c.coverage["sequences_rerun_alone"] = retried
     # model
     req_path = os.path.join(c.work, "req.txt")
     open(req_path, "w").write("\n".join(" ".join(ops) for ops, _, _, _ in results) + "\n")
